@@ -123,3 +123,75 @@ Definition illformedb (r : req) : bool :=
      | Some s => negb (subsetb comb (leaves s))
      | None => negb (Nat.eqb (List.length comb) 0)
      end.
+
+(* ======================================================================================================
+   C02: combining.  Reference semantics: the jobs of the expansion are partitioned by the values of the axes that
+   are NOT combined; groups in order of first appearance, members in enumeration order. *)
+
+(* the axes of a splitter, in order, each with the fields that move along it: an outer product puts the axes of
+   its operands side by side, an inner product identifies the axes of its operands position by position *)
+Fixpoint zip_axes (a b : list (list nat)) : list (list nat) :=
+  match a, b with x :: a', y :: b' => (x ++ y) :: zip_axes a' b' | _, _ => [] end.
+Fixpoint axes (s : spl) : list (list nat) :=
+  match s with
+  | Fld f => [[f]]
+  | Outer l => flat_map axes l
+  | Inner l => match l with [] => [] | x :: r => fold_left zip_axes (map axes r) (axes x) end
+  end.
+
+(* combining a field combines every field on the same axis *)
+Definition linked (s : spl) (comb : list nat) : list nat :=
+  flat_map (fun ax => if existsb (fun f => memb f comb) ax then ax else []) (axes s).
+
+(* what is left of a job after the combined fields are forgotten *)
+Definition forget (gone : list nat) (a : assignment) : assignment := filter (fun kv => negb (memb (fst kv) gone)) a.
+
+Definition kv_eqb (x y : nat * nat) : bool := Nat.eqb (fst x) (fst y) && Nat.eqb (snd x) (snd y).
+Definition key_eqb (a b : assignment) : bool := list_eqb kv_eqb a b.
+
+(* distinct elements in order of first appearance *)
+Fixpoint distinct (l : list assignment) : list assignment :=
+  match l with [] => [] | x :: r => x :: filter (fun y => negb (key_eqb x y)) (distinct r) end.
+
+(* positions (job numbers) of the elements of l equal to k *)
+Fixpoint positions (k : assignment) (l : list assignment) (i : nat) : list nat :=
+  match l with [] => [] | x :: r => if key_eqb k x then i :: positions k r (S i) else positions k r (S i) end.
+
+(* one group per distinct assignment of the remaining axes, in enumeration order, each holding, in enumeration
+   order, exactly the jobs with that assignment.  None = the split itself is rejected. *)
+Definition spec_groups (e : env) (s : spl) (comb : list nat) : option (list (list nat)) :=
+  match jobs e s with
+  | None => None
+  | Some js =>
+      let keys := map (forget (linked s comb)) js in
+      Some (map (fun k => positions k keys 0) (distinct keys))
+  end.
+
+(* the splitter with the fields in `gone` deleted (None when nothing is left) *)
+Fixpoint prune (gone : list nat) (s : spl) : option spl :=
+  match s with
+  | Fld f => if memb f gone then None else Some s
+  | Outer l => match flat_map (fun x => match prune gone x with Some y => [y] | None => [] end) l with
+               | [] => None
+               | l' => Some (Outer l')
+               end
+  | Inner l => match flat_map (fun x => match prune gone x with Some y => [y] | None => [] end) l with
+               | [] => None
+               | l' => Some (Inner l')
+               end
+  end.
+
+(* the computable condition under which the model's combiner path is proved to meet the reference: the axis
+   bookkeeping (splits_groups / combine_final_groups) finds exactly the linked fields, and
+   remove_inp_from_splitter_rpn returns the RPN of the splitter with those fields deleted.
+   Its negation is the input class of finding F02. *)
+Definition good_removalb (s : spl) (comb : list nat) : bool :=
+  match combiner_all_of (rpn s) comb with
+  | inr call =>
+      list_eqb Nat.eqb call (sort_set (linked s comb)) &&
+      match remove_rpn (rpn s) call with
+      | Some p => list_eqb tok_eqb p (match prune (linked s comb) s with Some s' => rpn s' | None => [] end)
+      | None => false
+      end
+  | inl _ => false
+  end.
